@@ -489,6 +489,8 @@ ada_really_inline bool url_aggregator::parse_host(std::string_view input) {
   if (input.empty()) {
     return is_valid = false;
   }  // technically unnecessary.
+  // The host is being replaced: its kind is decided again below.
+  host_type = DEFAULT;
   // If input starts with U+005B ([), then:
   if (input[0] == '[') {
     // If input does not end with U+005D (]), validation error, return failure.
@@ -679,6 +681,7 @@ bool url_aggregator::set_host_or_hostname(const std::string_view input) {
       // Let host be the result of host parsing host_view with url is not
       // special.
       if (host_view.empty() && !is_special()) {
+        host_type = DEFAULT;
         if (has_hostname()) {
           clear_hostname();  // easy!
         } else if (has_dash_dot()) {
@@ -712,6 +715,7 @@ bool url_aggregator::set_host_or_hostname(const std::string_view input) {
   if (new_host.empty()) {
     // Set url's host to the empty string.
     clear_hostname();
+    host_type = DEFAULT;
   } else {
     // Let host be the result of host parsing buffer with url is not special.
     if (!parse_host(new_host)) {
